@@ -29,6 +29,15 @@ Theorem C11_resegment : forall o s1 s2, concat s1 = concat s2 -> feed_all o s1 =
 Proof. exact resegment. Qed.
 Print Assumptions C11_resegment.
 
+(* in particular none of the 2^(n-1) ways of cutting a stream into non-empty reads gives a result
+   different from the whole stream's (the form the exhaustive correspondence cases use) *)
+Theorem C11_all_segmentations_agree : forall o stream,
+  filter (fun r => negb (list_eqb r (render (drain_all o stream))))
+         (map (fun sg => render (feed_all o sg)) (segmentations stream)) = [] /\
+  (forall sg, In sg (segmentations stream) -> concat sg = stream).
+Proof. intros; split; [apply all_segmentations_agree | apply segmentations_concat]. Qed.
+Print Assumptions C11_all_segmentations_agree.
+
 (* frames already delivered are never changed by later bytes *)
 Theorem C11_frames_prefix : forall o b x,
   exists more, fst (drain_all o (b ++ x)) = fst (drain_all o b) ++ more.
